@@ -15,7 +15,9 @@ K("awkward_localindex",
 # own positions in order, the rest are -1
 K("awkward_RegularArray_rpad_and_clip_axis1",
   extents={"toindex": "length * target"},
-  notes="a functional contract with the nested, nonlinear index (q*target + r) leaves z3 undecided; the kernel is pinned to its definition by E",
+  store_asserts={"toindex@L0.0": ["at == i*target + j", "value == i*size + j", "j < size and j < target"],
+                 "toindex@L0.1": ["at == i*target + j", "value == 0 - 1", "j >= size or j >= target"]},
+  notes="stated per store (the quantified form over the nonlinear index q*target + r leaves z3 undecided)",
   serves=["C09", "C12", "C13"])
 
 # C04 / C02: re-cutting a list array to given offsets neither repeats nor drops elements, and lists of a
